@@ -258,6 +258,7 @@ func init() {
 			{"F1", "decision table of the body section of ParseSIPMsg: every path (enumerated with the state fixed to Body) is labelled with its predicates (SkipBody, CLenReq, NoMoreData, CLen.Parsed(), start+CLen > len(buf)), verdict, returned offset as a linear form and final state, and must equal the row the property states; unknown predicates fail", ruleF1},
 			{"F2", "guard/use agreement: more bytes are needed exactly when bodyStart + Content-Length > len(buf) (strict), the same linear expression that is returned on success", ruleF2},
 			{"F3", "Content-Length is bounded (9 digits, 2^24) before it is used as an offset, and its body object is parsed only by ParseCLenVal", ruleF3},
+			{"F6", "the per-state path table of ParseSIPMsg (for every state every path to a return: verdict set, returned offset, state left in the object, field actions; variables abstracted, conditions merged) equals the reviewed reference table committed under sa/ref/", func(c *Ctx) { pathRefRule(c, "F6", "ParseSIPMsg", "SIPMsg") }},
 			{"F5", "the Content-Length header is always handed to its typed parser (shared with C01-R3b): the dispatch state of ParseHdrLine is never left undispatched and the dispatcher reports a non-zero verdict only after storing a typed state, so a cut after the colon cannot turn Content-Length into a generic header and lose the body length", ruleF5},
 			{"F4", "pipelining: the message start offset is written once, in state Init, from the offs parameter, never on resume; views Buf/RawMsg end at the returned offset; PSIPMsg.Reset composition (C12-Z3)", ruleF4},
 		},
